@@ -88,6 +88,10 @@ def button_shape(shape: str) -> dict:
         body = _btn_read(2) + _btn_read(0) + _btn_read(1)
         meta["k"] = 1
         meta["buttons"] = [{"i": 0, "pin": 5, "decl": "setup"}, {"i": 1, "pin": 6, "decl": "setup"}, {"i": 2, "pin": 9, "decl": "setup"}]
+    elif shape == "fnwhile":     # is_pressed() in the condition of a `while` inside a helper that the loop calls
+        decl += "def held():\n" + _ind(["n = 0", "while b0.is_pressed() and n < 3:", "    n += 1", "return n"])
+        body = _btn_read(0) + ['mon.write("hn")', "mon.write(held() + 10)"] + _btn_read(0)
+        meta["k"] = 2
     elif shape == "samepin":     # two Button objects on ONE pin (two handlers for one physical button)
         pre = "def h0():\n" + _ind(['mon.write("c0")']) + "def h1():\n" + _ind(['mon.write("c1")'])
         decl = "b0 = Button(7, on_click=h0)\nb1 = Button(7, on_click=h1)\n"
